@@ -4813,6 +4813,16 @@ class PyCdlib:
                                                         fmode, boot_catalog_old,
                                                         **kwargs)
 
+        # A file larger than one directory record can describe continues in
+        # further records; the new name needs one for each of them.
+        while isinstance(old_rec, dr.DirectoryRecord) and old_rec.data_continuation is not None and 'udf_new_path' not in kwargs:
+            old_rec = old_rec.data_continuation
+            num_bytes_to_add += self._add_hard_link_to_inode(old_rec.inode,
+                                                             old_rec.get_data_length(),
+                                                             fmode,
+                                                             boot_catalog_old,
+                                                             True, **kwargs)
+
         self._finish_add(0, num_bytes_to_add)
 
     def rm_hard_link(self, iso_path=None, joliet_path=None, udf_path=None):
